@@ -92,8 +92,11 @@ class RSocketClient(RSocketBase):
 
     async def _stop_tasks(self):
         await super()._stop_tasks()
-        await cancel_if_task_exists(self._keepalive_task)
-        self._keepalive_task = None
+        keepalive_task = self._keepalive_task
+        await cancel_if_task_exists(keepalive_task)
+
+        if self._keepalive_task is keepalive_task:
+            self._keepalive_task = None
 
     async def _connect_new_transport(self):
         try:
